@@ -128,7 +128,8 @@ Record row := mkRow {
   r_field : Z;           (* field identifier *)
   r_write : bool;
   r_func : Z;            (* enclosing function / role (diagnostic) *)
-  r_locks : list Z;      (* mutex fields of the same object held at the site *)
+  r_locks : list Z;      (* mutexes (by name: struct.field) held at the site: of the same object or of the one
+                            container that owns it (interp.lockobj) *)
   r_class : jclass }.
 Definition table := list row.
 
@@ -177,6 +178,13 @@ Record interp := mkInterp {
   site : nat -> nat;          (* index of an access event -> index of its row *)
   creator : Z -> thread;      (* object -> the goroutine that created it *)
   pubidx : Z -> nat;          (* object -> index of the event of its creator that publishes it *)
+  lockobj : Z -> Z -> Z;      (* object, lock name -> the object whose mutex of that name guards the object's fields.
+                                 Usually the object itself; for an object owned by exactly one container (a
+                                 demuxConn of its Demux, an httpReadWriter of its GoatOverHttp, a respHandler of
+                                 its RpcMultiplexer, a proxyClient of its Proxy, a streamHandler of its handler)
+                                 the container, when the lock is the container's. What matters for soundness is
+                                 only that it is a FUNCTION of the object: every access to a field of o that
+                                 names lock m holds the same mutex instance. *)
   publisher : Z -> Z -> thread;  (* object, tag -> the goroutine that writes the field(s) of that tag *)
   pubat : Z -> Z -> nat }.       (* object, tag -> index of the go statement / channel send of the publisher
                                     that starts (messages) the readers *)
@@ -189,7 +197,7 @@ Definition conforms (tbl : table) (tr : trace) (I : interp) : Prop :=
   (forall i t o f w a, nth_error tr i = Some (Acc t (o, f) w a) ->
      exists r, nth_error tbl (site I i) = Some r /\ r_field r = f /\ r_write r = w /\
                is_atomic r = a /\
-               (forall m, In m (r_locks r) -> holds tr i t (o, m)) /\
+               (forall m, In m (r_locks r) -> holds tr i t (lockobj I o m, m)) /\
                (is_init r = true ->
                   t = creator I o /\ (i < pubidx I o)%nat /\
                   exists e, nth_error tr (pubidx I o) = Some e /\ thread_of e = creator I o) /\
